@@ -528,7 +528,7 @@ Definition run_meta_invocation (r : realm) (o : list out) (oracle : N) : realm *
             let '(r1, resp, kills) := meta_call r proc details args kw oracle in
             let '(d, o1) :=
               match resp with
-              | MYield a k => sync_yield (r_dealer r1) meta_id invid [] a k
+              | MYield a k => sync_yield (lookup r1) (r_dealer r1) meta_id invid [] a k
               | MError e => sync_error (r_dealer r1) meta_id invid [] e [] []
               end in
             let r2 := r_set_dealer r1 d in
@@ -547,7 +547,10 @@ Definition handle (r : realm) (s : session) (m : cmsg) (oracle : N) : realm * li
   match m with
   | CPublish req opts topic args kw =>
       let '(b, pg, o) := publish (r_cfg r) (lookup r) (r_now r) (r_broker r) (r_pubgen r) s req opts topic args kw in
-      (r_set_broker r b pg, o)
+      if publish_aborts (r_cfg r) s opts topic then
+        (* protocol violation: ABORT was sent, the session ends *)
+        let '(r1, o1) := leave r sid in (r1, o ++ o1)
+      else (r_set_broker r b pg, o)
   | CSubscribe req opts topic =>
       let '(b, pg, o) := subscribe (r_cfg r) (r_broker r) (r_pubgen r) sid req opts topic in
       (r_set_broker r b pg, o)
@@ -574,8 +577,10 @@ Definition handle (r : realm) (s : session) (m : cmsg) (oracle : N) : realm * li
       let '(d, o) := cancel (lookup r) (r_dealer r) sid req opts in
       (r_set_dealer r d, o)
   | CYield req opts args kw =>
-      let '(d, o) := sync_yield (r_dealer r) sid req opts args kw in
-      (r_set_dealer r d, o)
+      let '(d, o) := sync_yield (lookup r) (r_dealer r) sid req opts args kw in
+      if yield_aborts (lookup r) (r_dealer r) sid req opts then
+        let '(r1, o1) := leave (r_set_dealer r d) sid in (r1, o ++ o1)
+      else (r_set_dealer r d, o)
   | CError ty req details err args kw =>
       if negb (N.eqb ty c_INVOCATION) then
         let '(r1, o1) := leave r sid in (r1, (sid, abort_violation) :: o1)
